@@ -1,5 +1,5 @@
 #!/bin/bash
-# shapefuzz.sh <transform> [mod rem] [only] : apply one mechanical behaviour-preserving transformation to every eligible site of a
+# shapefuzz.sh <transform[,transform...]> [mod rem] [only] : apply one mechanical behaviour-preserving transformation to every eligible site of a
 # scratch copy of /repo (checker/shapefuzz), confirm that it builds and that the pinned suite passes, then run every check on it.
 # Any VIOLATION is a false alarm of mine. KEEP=1 keeps the diff under /verif/refactors_auto/<transform>[-mod-rem].diff
 set -u
@@ -9,7 +9,9 @@ cd /verif
 [ -x bin/shapefuzz ] && [ -z "$(find checker/shapefuzz -newer bin/shapefuzz -name '*.go' -print -quit)" ] || (cd checker && go build -o ../bin/shapefuzz ./shapefuzz) || exit 2
 T=$(mktemp -d "${TMPDIR:-/tmp}/emcheck-sf-XXXXXX"); trap 'rm -rf "$T"' EXIT
 mkdir -p "$T/verif"; cp known_findings.json "$T/verif/"; rsync -a --exclude .git /repo/ "$T/repo/"; rsync -a --exclude .git /repo/ "$T/orig/"
-./bin/shapefuzz -dir "$T/repo" -t "$t" -mod "$mod" -rem "$rem" -only "$only" || { echo "$t | SHAPEFUZZ-FAILED"; exit 2; }
+for one in $(echo "$t" | tr ',' ' '); do
+  ./bin/shapefuzz -dir "$T/repo" -t "$one" -mod "$mod" -rem "$rem" -only "$only" || { echo "$t | SHAPEFUZZ-FAILED at $one"; exit 2; }
+done
 tag="$t"; [ "$mod" != 1 ] && tag="$t-$mod-$rem"
 (cd "$T" && diff -ruN orig repo | sed -e 's#^--- orig/#--- a/#' -e 's#^+++ repo/#+++ b/#' -e 's#^diff -ruN orig/\(.*\) repo/#diff -ruN a/\1 b/#') > "$T/patch.diff"
 echo "$tag | diff lines: $(grep -c '^[+-]' "$T/patch.diff")"
